@@ -26,6 +26,7 @@ CS = 'io_loop::connection_state::'
 def run(ctx):
     _run_main(ctx)
     _shared_r4(ctx)
+    _shared_r5(ctx)
 
 
 def _run_main(ctx):
@@ -92,3 +93,10 @@ def _shared_r4(ctx):
     """Rules of other properties that are necessary conditions of this one too (found by seeding round 4)."""
     with ctx.rule('R13.4', 'a returned message is collected and handed over whatever its size and whether or not a listener exists (shared with C03)', floor=3) as r:
         A.include(ctx, r, 'c03', 'R03.5', pick=('Return', 'completion-sends'))
+
+
+def _shared_r5(ctx):
+    """Rules of other properties that are necessary conditions of this one too (found by seeding round 5)."""
+    from rules import arms as A
+    with ctx.rule('R13.5', 'a returned message is forwarded verbatim: every field of Basic.Return and of the header is copied to the like-named field (shared with C03)', floor=3) as r:
+        A.include(ctx, r, 'c03', 'R03.4', pick=('Return::new',))
